@@ -353,3 +353,5 @@ def check(ctx: Ctx, col: Collector, tier: str) -> None:
     (col.ok if good else col.bad)("C07.RESULT-NAMES", key, repo.loc(VISITOR, gfi.node), "yields f'result_{x}' for x in range(1, …)" if good else "shape not recognised",
                                   *([] if good else ["generated result names do not start at result_1"]))
     col.assume("grouping of mixed tuple/non-tuple inferred returns and docstring-name matching by hash(type) are value-level and not decided")
+    from .shared import share
+    share(ctx, col, "C05", {"C05.UNION-NORMAL"}, "a result whose annotation is a union is rendered with all members of the union")
